@@ -60,6 +60,23 @@ class Rep(Re):
     def nullable(self): return self.lo == 0 or self.r.nullable()
 
 
+def sample(r: Re, rng) -> bytes:
+    """some string of the language of `r` (uniform choices; `Eos` contributes nothing)"""
+    if isinstance(r, Cls):
+        if not r.neg:
+            a, b = rng.choice(r.ranges)
+            return bytes([rng.randint(a, b)])
+        ok = [c for c in b"ABxab >\r" if not any(a <= c <= b for a, b in r.ranges)]
+        return bytes([rng.choice(ok)]) if ok else b"\x7e"
+    if isinstance(r, Seq):
+        return sample(r.a, rng) + sample(r.b, rng)
+    if isinstance(r, Alt):
+        return sample(rng.choice([r.a, r.b]), rng)
+    if isinstance(r, Rep):
+        return b"".join(sample(r.r, rng) for _ in range(rng.randint(r.lo, r.hi)))
+    return b""
+
+
 def lit(b: bytes) -> Re:
     if not b:
         return Eps()
